@@ -10,12 +10,13 @@ Definition earlier_decline (a : app) (i : nat) (url : bytes) (c : ctx) : Prop :=
               try_opt (kid_fns (app_kids a)) o url c = None.
 
 Inductive routed : app -> bytes -> ctx -> N -> list bytes -> Prop :=
-| RoutedH a i k p mf hid sel url c gs :
+| RoutedH a i k p mf hid sel url c gs args :
     nth_error (app_opts a) i = Some (DH k p mf hid sel) ->
     earlier_decline a i url c ->
     lang (pat_re p) url -> pat_match p url = Some gs ->
-    (k = KMap -> exists m, c = Some m /\ meth_lang mf m /\ forallb valid_text (map (grp gs) sel) = true) ->
-    routed a url c hid (map (grp gs) sel)
+    arg_conv k (map (grp gs) sel) = Some args ->
+    (k <> KAssign -> exists m, c = Some m /\ meth_lang mf m) ->
+    routed a url c hid args
 | RoutedM a i p sel k kid url c gs hid args :
     nth_error (app_opts a) i = Some (DM p sel k) ->
     earlier_decline a i url c ->
@@ -32,8 +33,8 @@ Proof.
     [|congruence].
   rewrite Hs in Hd. subst out.
   destruct o as [k p mf h sel|p sel k].
-  - apply handler_fires_iff in Ht. destruct Ht as (gs & E & Ef & Hk). injection Ef as -> ->.
-    eapply RoutedH; [exact Hn | exact Hb | eapply pat_match_whole; eassumption | exact E | exact Hk].
+  - apply handler_fires_iff in Ht. destruct Ht as (gs & args' & E & Ea & Ef & Hk). injection Ef as -> ->.
+    eapply RoutedH; [exact Hn | exact Hb | eapply pat_match_whole; eassumption | exact E | exact Ea | exact Hk].
   - apply mount_takes_iff in Ht. destruct Ht as (gs & E & Ef).
     destruct (nth_error kids k) as [kid|] eqn:Ek; [|discriminate].
     symmetry in Ef. apply finish404_fired in Ef.
@@ -55,10 +56,10 @@ Qed.
 
 Theorem routed_dispatch : forall a url c hid args, routed a url c hid args -> dispatch a url c = Fired hid args.
 Proof.
-  induction 1 as [a i k p mf hid sel url c gs Hn Hb Hl E Hk
+  induction 1 as [a i k p mf hid sel url c gs args Hn Hb Hl E Ea Hk
                  |a i p sel k kid url c gs hid args Hn Hb Hl E Ek Hr IH].
   - rewrite dispatch_unfold'. eapply scan_at; [exact Hn | exact Hb |].
-    apply handler_fires_iff. exists gs. auto.
+    apply handler_fires_iff. exists gs, args. auto.
   - rewrite dispatch_unfold'. eapply scan_at; [exact Hn | exact Hb |].
     apply mount_takes_iff. exists gs. split; [exact E|]. rewrite Ek, IH. reflexivity.
 Qed.
